@@ -1,10 +1,13 @@
 ---------------------------- MODULE Trace_Types ----------------------------
 (* Validation of observations recorded from the real type-hint adapter (code -> spec), C02 and C10.       *)
 (* TRACE_FILE holds [obs |-> << ... >>]; an observation is one of                                         *)
-(*   [kind |-> "parse", t, x, ok, v]        one parse of one key of type t with input x through           *)
+(*   [kind |-> "parse", t, d, x, ok, v]     one parse of one key of type t (default d) with input x through *)
 (*        parse_object({key: x}) or parse_args(["--key=" + text]): accepted?, and the resulting value;    *)
-(*   [kind |-> "fix", t, first, vok, sok, second, draised, rok, dsame, ser, ser2, jdraised, jrok, jdsame,  *)
-(*    jser, jser2]   what happened to an accepted result `first`: parser.validate passed (vok);            *)
+(*   [kind |-> "fix", t, d, absent, norm, x, first, vok, sok, second, draised, rok, dsame, ser, ser2,      *)
+(*    jdraised, jrok, jdsame, jser, jser2]   `first` is the accepted result for input x (a value, or a    *)
+(*        FileV: the name of a config file given to an enable_path argument), or, with absent, for the   *)
+(*        key not given (norm: Alg says this way of parsing normalises defaults).  What happened to it:   *)
+(*        parser.validate passed (vok);                                                                    *)
 (*        parse_object of the result succeeded (sok) and returned `second`; dump raised (draised), the    *)
 (*        dump re-parsed (rok) and the second dump was byte-identical (dsame); ser / ser2 are the first   *)
 (*        and the second dump read back by the stock YAML loader; j...: the same for format="json".       *)
@@ -27,6 +30,7 @@ V(j) == CASE j.k \in {"list", "tuple"} -> [k |-> j.k, v |-> [n \in 1..Len(j.v) |
           [] j.k = "dict" -> DictV([n \in 1..Len(j.v) |-> <<V(j.v[n][1]), V(j.v[n][2])>>])
           [] j.k = "float" -> FloatV(j.v[1], j.v[2])
           [] j.k = "enum" -> EnumV(j.v[1], j.v[2])
+          [] j.k = "file" -> FileV(j.v[1], V(j.v[2]))
           [] OTHER -> j
 RECURSIVE T(_)
 T(j) == CASE j.k = "literal" -> LitT([n \in 1..Len(j.v) |-> V(j.v[n])])
@@ -40,7 +44,7 @@ Next == UNCHANGED i
 Say(kind, idx, clause) == PrintT(<<"R", kind, idx, clause>>)
 DevStr(d) == (IF "excLeak" \in d THEN "+excLeak" ELSE "") \o (IF "origNested" \in d THEN "+origNested" ELSE "")
              \o (IF "inPlace" \in d THEN "+inPlace" ELSE "") \o (IF "setListing" \in d THEN "+setListing" ELSE "")
-             \o (IF "validateLeak" \in d THEN "+validateLeak" ELSE "")
+             \o (IF "validateLeak" \in d THEN "+validateLeak" ELSE "") \o (IF "rawDefault" \in d THEN "+rawDefault" ELSE "")
              \o (IF "litEq" \in d THEN "+litEq" ELSE "") \o (IF "dictKey" \in d THEN "+dictKey" ELSE "")
              \o (IF "serCollision" \in d THEN "+serCollision" ELSE "") \o (IF "yamlFloatStr" \in d THEN "+yamlFloatStr" ELSE "")
              \o (IF "serLenient" \in d THEN "+serLenient" ELSE "") \o (IF "jsonKeyCollision" \in d THEN "+jsonKeyCollision" ELSE "") \o (IF "leftObject" \in d THEN "+leftObject" ELSE "") \o (IF "leftSet" \in d THEN "+leftSet" ELSE "")
@@ -51,7 +55,7 @@ CheckParse(n) ==
       ty  == T(o.t)
       inp == V(o.x)
       out == V(o.v)
-      a   == AlgParse(ty, inp, NoneV)
+      a   == AlgParse(ty, inp, V(o.d))                                              \* d: the default of the argument
       refOK == o.ok = Accepts(ty, inp) /\ (o.ok => (Canon(out) \in {Canon(r) : r \in TopResults(ty, inp)} /\ ConformsTop(ty, out)))
       algOK == o.ok = a.ok /\ (o.ok => Canon(out) = Canon(a.v))
   IN /\ refOK \/ Say("parse", n, IF algOK /\ Devs(a) # {} THEN "ref/as-alg/" \o DevStr(Devs(a)) ELSE "ref/other/" \o DevStr(a.dev))
@@ -82,11 +86,17 @@ CheckFix(n) ==
   LET o   == Obs[n]
       ty  == T(o.t)
       fst == V(o.first)
-      b   == AlgParse(ty, fst, NoneV)
+      dd  == V(o.d)                                                                  \* the default of the argument
+      b   == AlgParse(ty, fst, dd)
       s   == IF fst = NoneV THEN Ok(NoneV, {}, NoneV) ELSE AlgDump(ty, fst)
+      \* how `first` came about, when the key was not given (o.absent) or given as x (o.given): what Alg predicts for it,
+      \* and the deviation of that first parse which is a reason for what follows (a default that was filled in as it is)
+      a0  == IF o.absent THEN AlgParseAbsent(ty, dd, o.norm) ELSE AlgParse(ty, V(o.x), dd)
+      firstAsAlg == a0.ok /\ Canon(a0.v) = Canon(fst)
+      fd  == IF firstAsAlg THEN a0.dev \cap {"rawDefault"} ELSE {}
       \* the tree that is parsed again is the one that was really written
       back == IF o.ser.k = "other" THEN Unbag(s.v) ELSE V(o.ser)
-      rd  == IF s.ok THEN AlgParse(ty, back, NoneV).dev \cap Causal ELSE {}
+      rd  == fd \cup (IF s.ok THEN AlgParse(ty, back, dd).dev \cap Causal ELSE {})
       \* both dumps are the predicted tree and differ only in the order of the members of a set
       reorder(ok, s1, s2) == ok /\ s.ok /\ MultiBag(s.v) /\ SerMatch(s.v, V(s1)) /\ SerMatch(s.v, V(s2))
       \* what the Alg layer offers as the reason: the dumper raised / the order of a set / something on the way dump -> parse
@@ -95,9 +105,9 @@ CheckFix(n) ==
         ELSE IF reorder(ok, s1, s2) THEN "/as-alg/+setOrder"
         ELSE IF "setListing" \in s.dev \cup rd THEN "/as-alg/+setListing"               \* a set is listed where the order shows: any outcome
         ELSE LET d == ((s.dev \ {"leftObject"}) \cup rd) \ notThisFormat              \* (a set of lists written as !!set does not load)
-                 d2 == IF s.ok THEN AlgParse(ty, back, NoneV).dev \cap {"litEq"} ELSE {}   \* lets an earlier Union member take the value
+                 d2 == IF s.ok THEN AlgParse(ty, back, dd).dev \cap {"litEq"} ELSE {}   \* lets an earlier Union member take the value
                  \* the written tree is read back as ANOTHER value (by an earlier Union member) exactly as Alg predicts, second dump included
-                 r  == AlgParse(ty, back, NoneV)
+                 r  == AlgParse(ty, back, dd)
                  \* (or refused, exactly as Alg predicts)
                  shift == s.ok /\ r.ok = ok /\ (ok => (Canon(r.v) # Canon(fst) /\ AlgDump(ty, r.v).ok /\ SerMatch(AlgDump(ty, r.v).v, V(s2))))
              IN IF d # {} THEN "/as-alg/" \o DevStr(d) ELSE IF d2 # {} THEN "/as-alg/" \o DevStr(d2)
@@ -105,12 +115,13 @@ CheckFix(n) ==
   IN /\ o.vok \/ Say("fix", n, "ref/validate")                                            \* a result passes validation
      /\ (o.sok /\ Canon(V(o.second)) = Canon(fst))                                        \* parsing it again changes nothing
           \/ Say("fix", n, IF "setListing" \in b.dev THEN "ref/second/as-alg/+setListing"       \* any order, any outcome
-                           ELSE IF b.dev # {} /\ b.ok = o.sok /\ (b.ok => Canon(b.v) = Canon(V(o.second))) THEN "ref/second/as-alg/" \o DevStr(b.dev)
+                           ELSE IF (b.dev \cup fd) # {} /\ b.ok = o.sok /\ (b.ok => Canon(b.v) = Canon(V(o.second))) THEN "ref/second/as-alg/" \o DevStr(b.dev \cup fd)
                            ELSE "ref/second/other")
      /\ (o.rok /\ o.dsame) \/ Say("fix", n, "ref/dump" \o why(o.draised, {"leftObject"}, {"jsonKeyCollision"}, o.rok, o.ser, o.ser2))
      /\ (o.jrok /\ o.jdsame) \/ Say("fix", n, "ref/dumpjson" \o why(o.jdraised, {"leftObject", "leftSet"}, {"yamlFloatStr"}, o.jrok, o.jser, o.jser2))
      /\ ("setListing" \in b.dev \/ ~(o.sok /\ Canon(V(o.second)) = Canon(fst)) \/ (b.ok /\ Canon(b.v) = Canon(fst)))
           \/ Say("fix", n, "alg/second")                                                 \* ... and the transcription agrees
+     /\ (firstAsAlg \/ "setListing" \in a0.dev) \/ Say("fix", n, "alg/first")
      /\ ("setListing" \in s.dev \/ o.draised \/ (s.ok /\ SerMatch(s.v, V(o.ser)))) \/ Say("fix", n, "alg/ser")
 
 Check == IF Obs[i].kind = "parse" THEN CheckParse(i) ELSE CheckFix(i)
